@@ -149,7 +149,11 @@ def rule_a(prog, rep):
 
 
 def _sys_guard_ok(cond, b, keyname):
-    """`!filter_sys || !<key>.starts_with(SYSTEM_TOPIC_ROOT_PREFIX)`"""
+    """`!filter_sys || !<key>.starts_with(SYSTEM_TOPIC_ROOT_PREFIX)` (also when it lives in a predicate helper)"""
+    from ..ir import inline_predicate
+    cond = inline_predicate(b.crate, cond)
+    while cond.get('k') == 'block' and not cond.get('stmts') and 'tail' in cond:
+        cond = cond['tail']
     if cond.get('k') != 'binary' or cond.get('op') != 'Or':
         return False
     l, lp = strip_not(cond['l'])
@@ -597,8 +601,8 @@ def rule_k(prog, rep):
         g = [it for it in guards(anc + (nd,)) if it[0] == 'if']
         lp = [x for x in anc if isinstance(x, dict) and x.get('k') == 'for'][-1]
         inner = [it for it in g if any(y is it[1] for y, _ in walk(lp['body']))]
-        okg = len(inner) == 1 and inner[0][2] is True and all('[*]' in x and x.endswith('[1]') for x in b.origins(strip_not(inner[0][1])[0])) and \
-            strip_not(inner[0][1])[1] is True
+        okg = len(inner) == 1 and all('[*]' in x and x.endswith('[1]') for x in b.origins(strip_not(inner[0][1])[0])) and \
+            (inner[0][2] == strip_not(inner[0][1])[1])     # `if changed { forward }` or `if !changed { continue } forward`
         if not okg:
             problems.append('the mirrored entries are not exactly those with changed == true')
     f = crate.fn(f'{FOLLOWER}::run_in_follower_mode')
